@@ -427,6 +427,16 @@ def _predicates(rng):
     return f"hash{salt}", lambda op: isinstance(op, GateOperation) and (hash((str(op), salt)) % 3 != 0)
 
 
+def _phases(rng, n):
+    """2**n phase angles: ordinary ones, and (one case in five) angles of many turns - exp(i theta) is exact in the
+    reference (libm reduces the argument exactly), a library that reduces theta itself in floating point is not"""
+    if rng.random() < 0.8:
+        return tuple(round(rng.uniform(-3.2, 3.2), 6) for _ in range(2**n))
+    scale = rng.choice([1e3, 1e7, 2.0**31, 2.0**40, 1e12])
+    return tuple(rng.choice([-1, 1]) * scale * rng.uniform(0.5, 1.0) if rng.random() < 0.7 else round(rng.uniform(-3.2, 3.2), 6)
+                 for _ in range(2**n))
+
+
 def _with_phases(rng, circuit, share=0.25):
     """interleave MultiPhaseOperations (full register) into a numeric circuit"""
     from orquestra.quantum.circuits import Circuit, MultiPhaseOperation
@@ -438,11 +448,11 @@ def _with_phases(rng, circuit, share=0.25):
     k = 0
     for op in circuit.operations:
         if rng.random() < share:
-            ops.append(MultiPhaseOperation(tuple(round(rng.uniform(-3.2, 3.2), 6) for _ in range(2**n))))
+            ops.append(MultiPhaseOperation(_phases(rng, n)))
             k += 1
         ops.append(op)
     if rng.random() < share:
-        ops.append(MultiPhaseOperation(tuple(round(rng.uniform(-3.2, 3.2), 6) for _ in range(2**n))))
+        ops.append(MultiPhaseOperation(_phases(rng, n)))
         k += 1
     return Circuit(ops, n_qubits=n), k
 
